@@ -21,4 +21,12 @@ CLAIMED["C11"] = {
 }
 ENGINES.append({"name": "stategraph", "path": "/verif/mc/stategraph.py", "serves_properties": ["C11"],
                 "kind_free_text": "explicit-state breadth-first search; transitions call the real methods on live objects; states rebuilt by replaying histories and cross-checked against deepcopy; canonical projection hashed for dedup"})
+CLAIMED["C01"] = {
+    "engine": "seqspace+choicetree",
+    "technique": "bounded exhaustive exploration: every gate of Sigma_1..4 (all placements, control lists of length 1-3 in every order, 7 angles) at depth 1 from every basis state, all depth-2 words over Sigma_3, on cirq and sympy, vs a numpy reference simulator; sampled mode by exhaustive enumeration of scripted sampler answers",
+    "text": "Every gate of the alphabet on registers of width 1-4 is simulated on cirq from |0..0>, from every computational basis state (full unitary) and from a dense complex vector supplied in the advertised index order; every depth-2 word over Sigma_3 (thorough: all 7 angles, plus depth 3 over a 30-gate alphabet) likewise; the cirq translation alone is compared through cirq.unitary; sympy: every gate of Sigma_2/Sigma_3 and depth-2 words over a 20/30-gate alphabet; empty circuits with initial vectors; registers wider than the highest index used. Frequencies (qubit-0-first keys), the statevector read in the advertised order and unsupported-gate refusal are compared with a numpy reference. Sampled mode: the scipy sampler is replaced by a scripted one and every sample sequence for n_shots in {1,2} is explored; the distribution handed to the sampler and the returned frequencies are checked exactly. Exhaustive within these bounds; unit tests only simulate a handful of hand-picked circuits.",
+    "note": "Trusted: numpy reference gate matrices and simulator (self-tested). Not covered: angles outside the 7-value alphabet, width > 4, backends not installed.",
+}
+ENGINES.append({"name": "choicetree", "path": "/verif/mc/choicetree.py + /verif/mc/seams.py", "serves_properties": ["C01"],
+                "kind_free_text": "stateless DFS over the answers of scripted random sources (prefix replay, first schedule replayed twice); records the argument of every draw"})
 NOT_CLAIMED = {}
